@@ -344,6 +344,11 @@ def plan_C05(seed, run, engine):
             ops.append(dict(op="solve", start=st, w0=w0, knobs=knobs(ample=rng.random() < 0.4),
                             faults=G.gen_faults(rng, solver, fault_rate),
                             storage=choice(rng, storages) if rng.random() < 0.3 else prob["storage"]))
+            if rng.random() < 0.2 and i < n_ops - 1 and st != "cold":
+                # F-INTERRUPT: this solve is killed at its k-th working-set selection / kernel
+                # call; the next operation restarts from whatever survived in the buffers
+                ops[-1]["faults"] = dict(ops[-1]["faults"] or {},
+                                         interrupt=int(choice(rng, [0, 1, 2, 3, 5, 8, 13, 21, 40])))
     if ops[-1]["op"] != "path":
         k = dict(tol=base_k["tol"], fit_intercept=base_k.get("fit_intercept", False))
         for kk in ("p0", "ws_strategy", "use_acc", "greedy_cd", "opt_strategy"):
